@@ -415,3 +415,109 @@ def run_coroutine(coro):
     from .vloop import run_coro
 
     return run_coro(coro)
+
+
+# ----------------------------------------------------------------------------------------------------------
+# Two requests in progress at once on the same application object (reentrancy): every interleaving within a bound.
+def merge_orders(na, nb):
+    """All interleavings of two step sequences of lengths na and nb, as tuples over {0, 1}."""
+    import itertools
+
+    for pos in itertools.combinations(range(na + nb), na):
+        order = [1] * (na + nb)
+        for p in pos:
+            order[p] = 0
+        yield tuple(order)
+
+
+def run_wsgi_pair(app, environs, order):
+    """Advance the two response iterables of `app` alternately as `order` says (steps beyond an iterable's end are skipped).
+    Returns [WsgiResult, WsgiResult]."""
+    results = [WsgiResult(), WsgiResult()]
+    its = [None, None]
+    done = [False, False]
+
+    def start(i):
+        def start_response(status, headers, exc_info=None):
+            results[i].start_calls.append((status, list(headers), len(results[i].items)))
+        try:
+            its[i] = iter(app(environs[i], start_response))
+        except BaseException as e:  # noqa
+            results[i].exc = e
+            done[i] = True
+
+    for i in order:
+        if done[i]:
+            continue
+        if its[i] is None:
+            start(i)
+            if done[i]:
+                continue
+        try:
+            results[i].items.append(next(its[i]))
+        except StopIteration:
+            done[i] = True
+        except BaseException as e:  # noqa
+            results[i].exc = e
+            done[i] = True
+    for i in (0, 1):
+        if its[i] is None and not done[i]:
+            start(i)
+        while not done[i]:
+            try:
+                results[i].items.append(next(its[i]))
+            except StopIteration:
+                done[i] = True
+            except BaseException as e:  # noqa
+                results[i].exc = e
+                done[i] = True
+        if its[i] is not None and hasattr(its[i], "close"):
+            try:
+                its[i].close()
+            except BaseException as e:  # noqa
+                results[i].exc = results[i].exc or e
+    return results
+
+
+def run_asgi_pair(prefix, app, scopes, messages):
+    """Two ASGI calls of `app` as two tasks on one virtual loop; every send() and every receive() is an environment event, so
+    the explorer interleaves the two responses message by message. Returns Execution(obs = [AsgiResult, AsgiResult])."""
+    from .explore import Execution
+
+    results = [AsgiResult(), AsgiResult()]
+    with Session() as s:
+        def make(i):
+            msgs = list(messages[i])
+            st = {"k": 0, "n": 0}
+
+            async def receive():
+                if st["k"] < len(msgs):
+                    st["k"] += 1
+                    await s.env.gate(f"r{i}-{st['k']:02d}")
+                    return dict(msgs[st["k"] - 1])
+                await s.env.gate(f"zz-disc{i}")
+                return {"type": "http.disconnect"}
+
+            async def send(message):
+                st["n"] += 1
+                results[i].raw_events.append(message)
+                results[i].events.append(_resolve_zerocopy(message) if message.get("type") == "http.response.zerocopysend" else dict(message))
+                await s.env.gate(f"s{i}-{st['n']:03d}")
+
+            async def job():
+                try:
+                    await app(scopes[i], receive, send)
+                except BaseException as e:  # noqa
+                    results[i].exc = e
+            return job()
+
+        tasks = [s.loop.create_task(make(i)) for i in (0, 1)]
+
+        class All:
+            def done(self):
+                return all(t.done() for t in tasks)
+
+        x = s.drive(All(), prefix, env_filter=lambda n: not n.startswith("zz"))
+        for r_ in results:
+            r_.stuck = x.obs["stuck"]
+    return Execution(x.choices, x.points, results)
